@@ -166,11 +166,11 @@ type UploadScenario struct {
 
 // FileOpts tunes CountFiles.
 type FileOpts struct {
-	StrictOS   bool // keep GOOS/GOARCH inside the configuration's lists
-	AllowBad   bool // mix in empty / unparseable files
-	BigValues  bool
-	MaxFiles   int
-	OnlyKnown  bool // metadata only from the pools (no invented program/version)
+	StrictOS  bool // keep GOOS/GOARCH inside the configuration's lists
+	AllowBad  bool // mix in empty / unparseable files
+	BigValues bool
+	MaxFiles  int
+	OnlyKnown bool // metadata only from the pools (no invented program/version)
 }
 
 // Midnight returns 00:00 UTC of t's day.
@@ -339,4 +339,12 @@ func UploadCase(t *rapid.T, o FileOpts) *UploadScenario {
 	}
 	s.Files = CountFiles(t, s.Config, ends, o, &s.Markers)
 	return s
+}
+
+func mustDate(s string) time.Time {
+	t, err := time.Parse("2006-01-02", s)
+	if err != nil {
+		panic(err)
+	}
+	return t
 }
